@@ -21,7 +21,7 @@ func init() {
 			"for every put* method the sizing pass (prepEncoder) and the writing pass (realEncoder) account for the same number of bytes, compared as symbolic linear forms per argument condition (C09.prep-real); length and CRC fields are written and checked over the same byte range with the same polynomial per container (C09.crc-len, the polynomial via C09.mirror tokens). " +
 			"no encoding step whose error is non-nil is answered with `return nil` or ignored (C09.enc-err, 338 steps). " +
 			"NOT covered: value-level equality (which bytes), compression codecs, varint arithmetic, agreement with the Kafka specification itself.",
-		Rules: []func(*Ctx){c09Mirror, c09Order, c09Balance, c09Keys, c09PrepReal, c09Null, c09CrcLen, c09EncErr, c09EarlyAccept, c09FreshElement, c10ErrLost, c09PoolOnce, c09Sentinel, c04OwnedOutput},
+		Rules: []func(*Ctx){c09Mirror, c09Order, c09Balance, c09Keys, c09PrepReal, c09Null, c09CrcLen, c09EncErr, c09EarlyAccept, c09FreshElement, c10ErrLost, c09PoolOnce, c09Sentinel, c04OwnedOutput, c09NullVsEmpty, c09DecodedElementKept},
 	})
 }
 
@@ -798,7 +798,12 @@ func c09Null(c *Ctx) {
 				}
 				return false
 			}
-			g1, path := reg.Guarded(r, AnyOf{Cmp{token.EQL, isLen, ConstInt(-1)}, Cmp{token.LSS, isLen, ConstInt(0)}, Cmp{token.EQL, isLen, ConstInt(0)}})
+			// the null marker of this form: -1 for int16/int32/varint lengths, 0 for the compact (uvarint, length+1) forms
+			var marker Pred = Cmp{token.EQL, isLen, ConstInt(-1)}
+			if strings.Contains(name, "Compact") {
+				marker = AnyOf{Cmp{token.LSS, isLen, ConstInt(0)}, Cmp{token.EQL, isLen, ConstInt(0)}}
+			}
+			g1, path := reg.Guarded(r, marker)
 			// `return nil, err` with err == nil known only after the length test: accept when guarded by the null test
 			c.Check(g1, rule, fn, "nil-only-for-null-marker", r.Instr(), "a nil value is returned (without error) only behind the test for the null marker", name+" can return a nil value for a non-null length", path)
 		}
